@@ -19,6 +19,9 @@
 #include <boost/property_map/property_map.hpp>
 #include <parmcb/parmcb.hpp>
 #include <parmcb/util.hpp>
+#include <thread>
+#include <atomic>
+#include <functional>
 #include <parmcb/forestindex.hpp>
 #include <parmcb/detail/fvs.hpp>
 #include <parmcb/detail/cycles.hpp>
@@ -92,6 +95,28 @@ void do_forest(Ctx<W> &x) {
     std::cout << "onforest"; for (auto &e : x.edges) std::cout << " " << (fi.is_on_forest(e) ? 1 : 0); std::cout << "\n";
     std::cout << "dim " << fi.cycle_space_dimension() << "\n";
     std::cout << "k " << fi.weak_connected_components() << "\n";
+    // the edge-to-index lookup returns a reference: results held by reference while further lookups are made must stay
+    // what they were (the parallel variants and callers' comparators keep several alive at once)
+    {
+        std::vector<std::reference_wrapper<const std::size_t>> held;
+        for (auto &e : x.edges) held.push_back(std::cref(fi(e)));
+        std::cout << "held"; for (auto &h : held) std::cout << " " << h.get(); std::cout << "\n";
+        // const lookups from several threads at once (what the TBB/MPI variants do with one shared index)
+        std::vector<std::size_t> expect; for (auto &e : x.edges) expect.push_back(fi(e));
+        std::atomic<long> wrong { 0 };
+        const auto &cfi = fi;
+        auto reader = [&](unsigned seed) {
+            for (int rep = 0; rep < 40; rep++)
+                for (std::size_t i = 0; i < x.m; i++) {
+                    std::size_t j = (i * 7 + seed + rep) % x.m;
+                    if (cfi(x.edges[j]) != expect[j]) wrong++;
+                    if (x.id(cfi(expect[j])) != j) wrong++;
+                }
+        };
+        std::vector<std::thread> ts;
+        if (x.m > 0) { for (unsigned t = 0; t < 4; t++) ts.emplace_back(reader, t * 13 + 1); for (auto &t : ts) t.join(); }
+        std::cout << "conc " << wrong.load() << "\n";
+    }
     // the index is a value: a copy-constructed index and an index ASSIGNED over one that was built for a
     // different graph (other dimension / component count) must answer exactly like the original
     typename Ctx<W>::Graph tri;
